@@ -33,6 +33,15 @@ CHECKS = {
  "C17": ("model_checking", "TLA+ spec Call.tla (phase machine Draw -> MapCoord -> MapCoordDone -> IntBegin -> [WeightReq][MapDens] -> IntEnd [MapDens]); TLC explores all single/multi-call behaviours (MC_Call: DensOnlyWhenNeeded, DensWhenNeeded); trace validation (Trace_Call) of instrumented map / integrand events incl. channel, enabled list, random-number id, buffer addresses and checksums, unit-interval classes, bins",
          "The recorded event sequence of every call must be a path of the protocol machine; densities only when needed and with untouched buffers.",
          "TLC; instrumented functors; interned addresses / hexfloat checksums", "5/C17"),
+ "C03": ("model_checking", "TLA+ spec Session.tla (checkpoint object over uninterpreted terms; ChkOf = checkpoint of the uninterrupted run): TLC explores all histories of iterate / return+begin / save+load / rollback (MC_Session: ChkIsUninterrupted); trace validation (Trace_Session): all 2^(n-1) compositions x memory / text / callback-file transports on the real integrators, checkpoint text after every iteration must be a function of the calls done so far; early stop by target precision must not depend on interruptions",
+         "Byte-identity of checkpoint texts (interned) for equal histories; the first iteration that diverges is the event TLC rejects.",
+         "TLC; interning of texts; the uninterrupted run is only required to be reproducible - its correctness is C02 / C19", "5/C03"),
+ "C15": ("model_checking", "TLA+ spec Session.tla (RolledBack as coded vs ChkOf): TLC explores all histories incl. rollback(k), k in 0..n+1 (MC_Session); trace validation (Trace_Session, action TRollback): run(n); [reload]; rollback(k); [reload]; resume, the text and next state after rollback(k) must be those of the run that stopped after k, k > n must throw and change nothing",
+         "Same binding as C03: checkpoint text and next sampling state are functions of the surviving iterations.",
+         "TLC; interning of texts and states", "5/C15"),
+ "C19": ("model_checking", "TLA+ spec Session.tla (StateAfter / NextState threading): MC_Session invariant ChkIsUninterrupted includes the state the next iteration uses; trace validation (Trace_Session): per iteration recorded state = state bound to the history so far (first: user grid / normalised weights / uniform), points consistent with it (usedOk), checkpoint's next state = library refinement of the recorded state and data; uninterrupted, resumed, reloaded, rolled-back runs",
+         "State ids are bit-exact (hexfloat) so 'exactly' is checked literally. MPI leg is checked with C04's driver.",
+         "TLC; usedOk reconstruction tolerance 8-16 eps; library refinement functions used as the definition of 'refinement' (their correctness is C07 / C08)", "5/C19"),
 }
 
 NOT_YET = {}
